@@ -334,3 +334,64 @@ def model_l_check_eq(pid, init):
         st.ghost.pop('in_iter', None)
     c.pre_state = pre_state
     return c
+
+
+def model_init_head(pid):
+    """Model.init, up to the selection of the initialisation flag: for every routine and whatever the model has been through before,
+    the constant services are re-evaluated from the current parameters (s_update) and then the variable services (s_update_var) --
+    so that a second run after a parameter change works on the data as they are now."""
+    def rec(tag):
+        def h(ex, st, args, kw, node):
+            st.ghost['order'] = st.ghost['order'] + [tag]
+            return None
+        return h
+
+    def post(old, new, res):
+        return z3.BoolVal(new.st.ghost['order'] == ['s_update', 's_update_var'])
+    c = Contract('andes/core/model/model.py', 'Model.init', pid=pid, params={'self': TObj(), 'routine': TStr()},
+                 schema={'self.flags.initialized': TBool(), 'self.flags.pflow': TBool(), 'self.flags.tds': TBool()}, ghost_init={'order': []},
+                 calls={'self.s_update': rec('s_update'), 'self.s_update_var': rec('s_update_var')},
+                 ensures=[('constant-services-then-variable-services-are-re-evaluated-on-every-call', post)], modifies=[])
+    c.body_to = 'flag_name = '
+    c.merge = False
+    c.tag = 'head'
+    return c
+
+
+def replay_rerun_after_alter(obligation=None, model=None, meta=None):
+    """native: power flow, parameter change through alter(), power flow again on the same object must give the solution of a fresh
+    system in which the same change was made before the first run"""
+    import contextlib
+    import io
+    import logging
+    import numpy as np
+    import andes
+    logging.getLogger('andes').setLevel(logging.CRITICAL)
+    case = andes.get_case('ieee14/ieee14.raw')
+
+    def changes(ss):
+        return [('Line', 'x', ss.Line.idx.v[3], 1.5), ('Line', 'tap', ss.Line.idx.v[7], 1.04), ('Line', 'b', ss.Line.idx.v[0], 2.0),
+                ('PV', 'p0', ss.PV.idx.v[0], 1.25), ('PQ', 'p0', ss.PQ.idx.v[2], 1.3), ('PV', 'v0', ss.PV.idx.v[1], 0.99)]
+    with contextlib.redirect_stdout(io.StringIO()), contextlib.redirect_stderr(io.StringIO()):
+        probe = andes.load(case, default_config=True, no_output=True)
+        todo = changes(probe)
+    n = 0
+    for mdl, par, idx, factor in todo:
+        n += 1
+        with contextlib.redirect_stdout(io.StringIO()), contextlib.redirect_stderr(io.StringIO()):
+            a = andes.load(case, default_config=True, no_output=True)
+            a.PFlow.run()
+            new = factor * a.__dict__[mdl].get(par, idx, 'vin') if par != 'v0' else factor
+            a.__dict__[mdl].alter(par, idx, new)
+            ok_a = a.PFlow.run()
+            b = andes.load(case, default_config=True, no_output=True)
+            b.__dict__[mdl].alter(par, idx, new)
+            ok_b = b.PFlow.run()
+        if not (ok_a and ok_b):
+            continue
+        d = float(np.max(np.abs(a.dae.y - b.dae.y)))
+        if d > 1e-6:
+            return {'confirmed': True, 'inputs': {'case': 'ieee14.raw', 'sequence': 'PFlow.run(); %s.alter(%r, %r, %r); PFlow.run()' % (mdl, par, idx, new)},
+                    'observed': 'the second solution differs by %.3e from the solution of a fresh system with the same change made before its first run' % d,
+                    'native_cmd': 'contracts/fn_sequence.py replay_rerun_after_alter'}
+    return {'confirmed': False, 'tried': n}
